@@ -739,6 +739,10 @@ func main() {
 	handle(mk("round down", 1<<53+1, []destReq{{1, 1<<53 + 1}}, op{K: "unlock", C: 1, T: 1100}, op{K: "unlock", C: 1, T: 1100}, op{K: "delete", C: 0, T: 1101}))
 	// half way with an odd amount just below 2^53: float product is a tie rounded to even
 	handle(mk("schedule tie", 1<<53-1, []destReq{{1, 1<<53 - 1}}, op{K: "unlock", C: 1, T: 1050}))
+	// the Coq schedule witness: about 61 ZCN, 4821061 s into 5747560 s: one unit above the exact share
+	handle(hist{Conf: conf{MinLock: 1, MinDur: 2 * sec, MaxDur: 10000000 * sec, MaxDests: 3}, Note: "schedule witness", Ops: []op{
+		{K: "add", C: 0, T: 1000, V: 607985353607, Bal: u64p(607985353607), Start: 1000, Dur: 5747560 * sec, Dests: []destReq{{1, 607985353607}}},
+		{K: "unlock", C: 1, T: 4822061}}})
 	// small amounts through the whole life
 	handle(mk("small", 1000, []destReq{{1, 300}, {2, 600}}, op{K: "unlock", C: 1, T: 1010}, op{K: "trigger", C: 0, T: 1033}, op{K: "unlock", C: 0, T: 1034},
 		op{K: "stop", C: 0, T: 1050, D: 2}, op{K: "unlock", C: 0, T: 1051}, op{K: "unlock", C: 1, T: 1100}, op{K: "unlock", C: 1, T: 1101}, op{K: "delete", C: 0, T: 1200}))
